@@ -60,6 +60,7 @@ type Config struct {
 	AtomicPoints bool // sync/atomic operations are scheduling points
 	NoPoison     bool // do not poison []byte handed to a Pool
 	NoStalls     bool // do not offer the "stall the default thread" alternative
+	Names        bool // resolve the names of library threads from their call site (slow; always on when tracing)
 	LibPrefix    string
 }
 
@@ -491,7 +492,11 @@ func spawn(name string, lib bool, f func()) {
 		return
 	}
 	if name == "" {
-		name = callerName()
+		if s.cfg.Trace || s.cfg.Names {
+			name = callerName()
+		} else {
+			name = "lib"
+		}
 	}
 	t := s.newThread(name, lib, s.cur)
 	t.what = "start"
